@@ -308,6 +308,8 @@ func (e *rev) coq(ind string, sb *strings.Builder) {
 		sub(e.a)
 	case "Break":
 		sb.WriteString("EBreak")
+	case "Assume":
+		fmt.Fprintf(sb, "EAssume (%s)", e.c.coq())
 	case "SetLen":
 		fmt.Fprintf(sb, "ESetLen %s (%s)", cqStr(e.x), e.t1.coq())
 	case "Reslice":
@@ -500,7 +502,7 @@ func emitRisk(repo, outDir string) error {
 	sb.WriteString("Definition risk_prog : string -> option (list ev) := lookup risk_table.\n\n")
 	wrap("risk_sigs", "list (string * list string)", sigs)
 	sb.WriteString("(* per function: (number of risky operations, number of EUnknown events) *)\n")
-	wrap("risk_stats", "list (string * (nat * nat))", stats)
+	wrap("risk_stats", "list (string * (Z * Z))", stats)
 	var rs, ds []string
 	for _, r := range roots {
 		rs = append(rs, cqStr(r))
